@@ -306,7 +306,7 @@ NAME_RE = r"[A-Za-z][A-Za-z0-9]{0,5}"
 @st.composite
 def random_problems(draw, tier):
     orders = {}
-    tree = draw(gen.expr_trees(max_leaves=5, orders=orders, literal_rate=14, big_literals=True))
+    tree = draw(gen.expr_trees(max_leaves=5, orders=orders, literal_rate=14, big_literals=True, constant_pairs=True))
     used = X.indexes_of(tree)
     kind = draw(st.sampled_from(["plain", "plain", "plain", "diagonal", "broadcast", "renamed", "renamed"]))
     k = draw(st.integers(0, min(len(used), 3)))
